@@ -1176,6 +1176,73 @@ def protocol_method_classes(res):
         res.count("oracle:members-of-callable/sized/record-like-classes-converted-by-their-own-types", 10)
 
 
+# ---- members annotated by a DOTTED name (`shapes.Point`) on the constructor of a class of a package module, where the head of the
+# name is the module's own import (`from pkg import shapes`) and an unrelated top-level module of the same name is loaded as well
+DOTTED_FILES = {
+    "shapes.py": "import dataclasses\n@dataclasses.dataclass\nclass Point:\n    x: str = ''\n    y: str = ''\n",
+    "c05_acme/__init__.py": "",
+    "c05_acme/shapes.py": "import dataclasses\n@dataclasses.dataclass\nclass Point:\n    x: float\n    y: float\n    label: str = ''\n",
+    "c05_acme/models.py": (
+        "from __future__ import annotations\nimport dataclasses, typing\nfrom c05_acme import shapes\nimport c05_acme.shapes as geo\n"
+        "class Marker:\n    def __init__(self, at: shapes.Point, name: str = ''):\n        self.at, self.name = at, name\n"
+        "class Route:\n    def __init__(self, start: geo.Point, stops: typing.List[shapes.Point] = ()):\n        self.start, self.stops = start, stops\n"
+        "@dataclasses.dataclass\nclass Pin:\n    at: shapes.Point\n    tag: str = ''\n"),
+}
+
+
+def _dotted_child(_job):
+    import importlib
+    import os
+    import sys
+    import tempfile
+    import warnings
+    warnings.simplefilter("ignore")
+    d = tempfile.mkdtemp(prefix="c05dot")
+    os.makedirs(os.path.join(d, "c05_acme"))
+    for name, src in DOTTED_FILES.items():
+        with open(os.path.join(d, name), "w") as f:
+            f.write(src)
+    sys.path.insert(0, d)
+    top = importlib.import_module("shapes")
+    models, inner = importlib.import_module("c05_acme.models"), importlib.import_module("c05_acme.shapes")
+    import typelib
+    bad = []
+    pt = {"x": "1.5", "y": "2", "label": 7}
+    want = typelib.unmarshal(inner.Point, pt)
+    for label, t, src, pick in (
+            ("Marker(at: shapes.Point)", models.Marker, {"at": pt, "name": "m"}, lambda r: [r.at]),
+            ("Marker from JSON text", models.Marker, '{"at": {"x": "1.5", "y": "2", "label": 7}, "name": "m"}', lambda r: [r.at]),
+            ("Marker from pairs", models.Marker, [("at", pt), ("name", "m")], lambda r: [r.at]),
+            ("Route(start: geo.Point, stops: List[shapes.Point])", models.Route, {"start": pt, "stops": [pt, pt]}, lambda r: [r.start, *r.stops]),
+            ("Pin(at: shapes.Point) dataclass", models.Pin, {"at": pt}, lambda r: [r.at]),
+            ("List[Marker]", __import__("typing").List[models.Marker], [{"at": pt}], lambda r: [r[0].at])):
+        try:
+            got = pick(typelib.unmarshal(t, src))
+            if any(type(g) is not inner.Point or g != want for g in got):
+                bad.append(f"unmarshal({label}): members {got!r}; by their own routine (c05_acme.shapes.Point): {want!r}"[:300])
+        except Exception as e:  # noqa: BLE001
+            bad.append(f"unmarshal({label}) raised {type(e).__name__}: {e}; the member's own routine gives {want!r}"[:300])
+    try:
+        m = typelib.marshal(models.Marker(want, "m"))
+        if m != {"at": typelib.marshal(want), "name": "m"}:
+            bad.append(f"marshal(Marker(...)) = {m!r}; the member's own routine gives {typelib.marshal(want)!r}"[:300])
+    except Exception as e:  # noqa: BLE001
+        bad.append(f"marshal(Marker(...)) raised {type(e).__name__}: {e}"[:300])
+    del top
+    return bad
+
+
+def dotted_member_probe(res):
+    bad = iso.map_isolated(_dotted_child, [None], timeout=60.0)[0]
+    if not isinstance(bad, list):
+        raise RuntimeError(f"harness: dotted-member probe failed: {bad}")
+    res.case({"family": "member-annotated-by-dotted-name"}, True)
+    for b in bad:
+        res.failures.append({"what": b, "input": {"dotted": True}})
+    if not bad:
+        res.count("oracle:dotted-member-annotations-converted-by-the-class-they-name", 7)
+
+
 def explore(ctx):
     res = Result()
     res.rule = RULE
@@ -1195,6 +1262,7 @@ def explore(ctx):
     pseudo_field_sources(res)
     cross_module_inheritance(res)
     protocol_method_classes(res)
+    dotted_member_probe(res)
     return res
 
 
@@ -1223,6 +1291,10 @@ def replay(failure):
     if "xmod" in inp:
         bad = iso.map_isolated(_xmod_child, [None], timeout=60.0)[0]
         print(json.dumps({"differences": bad}, indent=1))
+        return bool(bad)
+    if "dotted" in inp:
+        bad = iso.map_isolated(_dotted_child, [None], timeout=60.0)[0]
+        print(json.dumps(bad, indent=1, default=str)[:3000])
         return bool(bad)
     if "proto" in inp:
         bad = iso.map_isolated(_proto_child, [None], timeout=60.0)[0]
